@@ -117,7 +117,7 @@ CHECKS = {
          "impl_inverse returns differs from 1/x by strictly less than one unit of the result's last digit (the exit iterate lies within 0.61 units of its own p+2-th digit of 1/x: with_prec has "
          "relative error <= half a unit, residuals obey e' = e^2 +- rho, fixed points and two-cycles have |e| <= 2 rho; the final rounding - the declarative rounding of C07 - moves it by at most "
          "1 - 10^-k units, k >= 2 dropped digits); the Newton step is exact and squares the residual; negation commutes with the reciprocal under the mirrored mode (C12_neg_mirror); sign copying; "
-         "zero/one shortcuts. Not a theorem: 'exactly 1/x whenever 1/x has at most p digits' - decided per generated input. Every result of the real code is judged exactly (sign, |R x - 1| < unit*x, "
+         "zero/one shortcuts; C12_exact_when_short - whenever 1/x = Y * 10^-t with 0 < Y < 10^p (at most p significant digits), what is returned IS 1/x, under every mode. Every result of the real code is judged exactly (sign, |R x - 1| < unit*x, "
          "exact when 1/x has <= p digits) and compared exactly with the model, which receives the real f64 guess through a hook and reports non-termination within 400 steps.",
          "Modelled rather than verified: the f64 initial guess (libm exp2; its value is handed over by a hook, and the premise |1 - x g| <= 94/100 of the theorems is observed on every generated input: "
          "evidence tag +guess-beyond-94-percent, never seen; 64 of 50004 quick cases lie between 70% and 94% - the inputs built to push the guess through f64 underflow). Trusted: Lean kernel, extractor, harness/driver.",
